@@ -271,6 +271,13 @@ func (h *c09) exec(op map[string]interface{}) map[string]interface{} {
 	case o := <-done:
 		return o
 	case <-time.After(90 * time.Second):
+	}
+	// the whole process may have been stalled (shared, overloaded machine): the timer then fires
+	// although the operation never got to run. Only a second full period without an answer counts.
+	select {
+	case o := <-done:
+		return o
+	case <-time.After(90 * time.Second):
 		h.hung = true
 		return map[string]interface{}{"hang": true}
 	}
